@@ -375,7 +375,7 @@ pub fn property(tier: Tier) -> Property {
         }),
     ];
     Property {
-        id: "C10",
+        id: "C10", scale: tier.pick(8, 3),
         stages,
         assumptions: vec!["the wrapper VerifGroup (hook, cfg slotted_egraphs_verif) delegates to Group<Perm> without logic of its own".into()],
     }
